@@ -171,6 +171,9 @@ func (w *W) c15Program(k int) {
 			switch style {
 			case 0:
 				reuse = o.ptr
+				if reuse != nil && r.Chance(1, 4) {
+					reuse.Reset() // documented way to recycle: lengths to zero, capacity kept
+				}
 			case 1:
 				if o.has {
 					tmp = o.val
